@@ -5,7 +5,9 @@
 //!   case <i> codec                 no collection (codec / merge-operator requests)
 //!   build <threads> <seed> <jit>   RevIndex::create inside a rayon pool of <threads>; jit=1 installs a
 //!                                  seeded yield / micro-sleep callback at every write point
-//!                                  -> `H <h:ids;…> P <ids>` (scan of HASHES, PROCESSED)
+//!                                  -> `H <h:ids;…> P <ids>` (scan of HASHES, PROCESSED); a table of more
+//!                                  than 100 keys is printed as the digest `n=<keys> p=<postings> x=<xor>
+//!                                  s=<sum>` of `key * (id + 1) mod 2^64` over its postings
 //!   membuild <threads>             mem RevIndex::new_with_sigs in a pool -> `H <h:ids;…>` (per-hash probes)
 //!   extend <split> direct|reopen <threads> <seed>   create(C[..split]) then update(C) -> scan
 //!   reject <split> <k> hashes|name create(C[..split]) then update(C with record k changed) -> `err …`
@@ -72,6 +74,82 @@ fn rand_coll(r: &mut Rng, max_d: u64) -> Vec<Vec<u64>> {
             d.push(*r.pick(&u));
         }
         c.push(d);
+    }
+    c
+}
+
+/// sizes at the boundaries of the batching / container constants a build may use
+const BIG: [u64; 12] = [1023, 1024, 1025, 2047, 2048, 2049, 4095, 4096, 4097, 3000, 1500, 5000];
+
+/// `n` ascending hashes starting near `base` with gaps of 1..=gap
+fn ladder(r: &mut Rng, base: u64, n: u64, gap: u64) -> Vec<u64> {
+    let mut v = Vec::with_capacity(n as usize);
+    let mut x = base;
+    for _ in 0..n {
+        x += r.range(1, gap);
+        v.push(x);
+    }
+    v
+}
+
+fn large_sizes(r: &mut Rng, k: u64) -> Vec<u64> {
+    match k % 6 {
+        0 => vec![1024, 1023, 1025],
+        1 => vec![2049, 2047],
+        2 => vec![4097, 1024],
+        3 => vec![4095, 2048],
+        4 => vec![4096, *r.pick(&BIG[..6])],
+        _ => vec![r.range(1000, 5000), *r.pick(&BIG)],
+    }
+}
+
+/// a collection with large datasets: `sizes` hashes drawn from one ladder (so that they overlap), plus a
+/// few small datasets that share hashes with them
+fn large_coll(r: &mut Rng, sizes: &[u64]) -> Vec<Vec<u64>> {
+    let maxn = *sizes.iter().max().unwrap();
+    let base = if r.chance(1, 4) { (1u64 << 62) + r.below(1000) } else { r.below(1 << 40) };
+    let u = ladder(r, base, maxn + maxn / 8 + 8, 5);
+    let mut c: Vec<Vec<u64>> = vec![];
+    for &n in sizes {
+        // a prefix of the ladder, a window, or an even spread: exactly n hashes
+        let d: Vec<u64> = match r.below(3) {
+            0 => u[..n as usize].to_vec(),
+            1 => {
+                let off = r.below(u.len() as u64 - n + 1) as usize;
+                u[off..off + n as usize].to_vec()
+            }
+            _ => {
+                let mut idx: Vec<usize> = (0..u.len()).collect();
+                for i in 0..n as usize {
+                    let j = i + r.below((u.len() - i) as u64) as usize;
+                    idx.swap(i, j);
+                }
+                let mut d: Vec<u64> = idx[..n as usize].iter().map(|&i| u[i]).collect();
+                d.sort_unstable();
+                d
+            }
+        };
+        c.push(d);
+    }
+    let nsmall = r.range(1, 3);
+    for _ in 0..nsmall {
+        let big = &c[r.below(sizes.len() as u64) as usize];
+        let mut d: Vec<u64> = big.iter().copied().filter(|_| r.chance(1, 60)).collect();
+        // the hashes at the ends of 1024-chunks of a big dataset are favourites
+        for p in [1022usize, 1023, 1024, 2047, 2048, 4095, 4096] {
+            if p < big.len() && r.chance(1, 2) {
+                d.push(big[p]);
+            }
+        }
+        d.push(*r.pick(&u));
+        d.sort_unstable();
+        d.dedup();
+        c.push(d);
+    }
+    // the position of the big datasets varies
+    if r.chance(1, 2) {
+        let k = c.len() - 1;
+        c.swap(0, k);
     }
     c
 }
@@ -305,6 +383,24 @@ fn gen(a: &Args) {
             o.op(&format!("truncate {} {}", split, m));
         }
     }
+    // --- the large family: datasets of 1000..5000 hashes (sizes at the boundaries of the batching and
+    // container constants a build may use) through create, update and the in-memory build
+    let n = if thorough { 18 } else { 6 };
+    for k in 0..n {
+        let sizes = large_sizes(&mut r, k);
+        let c = large_coll(&mut r, &sizes);
+        o.case(&format!("coll {}", show_coll(&c)));
+        let nd = c.len() as u64;
+        o.op(&format!("build 1 {} 0", r.bits(16)));
+        o.op(&format!("build {} {} 1", r.pick(&threads[1..]), r.bits(16)));
+        o.op(&format!("membuild {}", r.pick(&threads)));
+        let mode = if r.chance(1, 2) { "direct" } else { "reopen" };
+        o.op(&format!("extend {} {} {} {}", r.range(1, nd - 1), mode, r.pick(&threads), r.bits(16)));
+        if thorough {
+            o.op(&format!("extend {} reopen {} {}", r.range(0, nd), r.pick(&threads), r.bits(16)));
+            o.op(&format!("membuild {}", r.pick(&threads)));
+        }
+    }
     // more reduction trees on larger collections (cheap, no RocksDB)
     let n = if thorough { 4000 } else { 300 };
     for _ in 0..n {
@@ -416,14 +512,27 @@ fn scan(dir: &Path) -> String {
     )
 }
 
+/// a table `hash -> ids`: the exact list up to 100 keys; beyond, a digest: number of keys, number of
+/// postings, XOR and sum (mod 2^64) of `key * (id + 1) mod 2^64` over the postings
 fn show_table(h: &BTreeMap<u64, Vec<u32>>) -> String {
     if h.is_empty() {
         "-".into()
-    } else {
+    } else if h.len() <= 100 {
         h.iter()
             .map(|(k, ids)| format!("{}:{}", k, show_nats(ids.iter().map(|x| *x as u64))))
             .collect::<Vec<_>>()
             .join(";")
+    } else {
+        let (mut p, mut x, mut s) = (0u64, 0u64, 0u64);
+        for (k, ids) in h {
+            for id in ids {
+                let v = k.wrapping_mul(*id as u64 + 1);
+                p += 1;
+                x ^= v;
+                s = s.wrapping_add(v);
+            }
+        }
+        format!("n={} p={} x={} s={}", h.len(), p, x, s)
     }
 }
 
